@@ -19,8 +19,8 @@ package scanner
 //@ site send#1 as snd
 //@ site updateSTH#1 as up
 //@ requires f != nil && f.opts != nil && f.client != nil && ctx != nil && batch >= 1
-//@ requires f.opts.StartIndex >= 0
-//@ loop 1 invariant f.opts != nil && f.opts == old(f.opts) && start >= old(f.opts.StartIndex) && end <= f.opts.EndIndex
+//@ requires f.opts.StartIndex >= 0 && f.opts.EndIndex >= 0
+//@ loop 1 invariant f.opts != nil && f.opts == old(f.opts) && start >= old(f.opts.StartIndex) && end <= f.opts.EndIndex && f.opts.EndIndex >= 0
 //@ at snd assert [range-starts-at-the-cursor-and-is-non-empty] snd.x.start == start && snd.x.start <= snd.x.end
 //@ at snd assert [range-within-one-batch-and-before-the-end] snd.x.end - snd.x.start + 1 <= batch && snd.x.end < end
 //@ loop 1 step-assert [cursor-moves-to-just-after-the-range-sent-or-stays] (snd.called ==> next(start) == snd.x.end + 1) && (!snd.called ==> next(start) == start)
@@ -29,7 +29,55 @@ package scanner
 //@ func (*Fetcher).updateSTH
 //@ props C16
 //@ arith int
-//@ requires f != nil && f.opts != nil && f.client != nil && ctx != nil
+//@ site Retry#1 as rt
+//@ requires f != nil && f.opts != nil && f.client != nil && ctx != nil && f.opts.EndIndex >= 0
 //@ modifies f.sth, f.sthBackoff, f.opts.EndIndex
-//@ frame-trusted the retry closure assigns only f.sth and f.opts.EndIndex (verified as updateSTH$1)
+//@ frame-trusted the retry closure assigns only f.sth and f.opts.EndIndex (verified as updateSTH$1); the back-off object is the Fetcher's own
 //@ ensures [success-means-a-strictly-bigger-tree] result == nil ==> f.opts.EndIndex > old(f.opts.EndIndex)
+//@ ensures [result-is-the-retry-verdict] result == rt.res
+
+// The body of the retry loop in updateSTH: it reports success only for an STH strictly bigger than
+// the size the Fetcher had reached, and only then moves EndIndex (to exactly that size).
+//@ func (*Fetcher).updateSTH$1
+//@ props C16
+//@ arith int
+//@ site GetSTH#1 as gs
+//@ requires f != nil && f.opts != nil && f.client != nil && ctx != nil && f.sthBackoff != nil
+//@ requires lastSize == uint64(f.opts.EndIndex) || uint64(f.opts.EndIndex) > lastSize
+//@ modifies f.sth, f.opts.EndIndex
+//@ ensures [failed-or-too-small-sth-is-retried-and-changes-nothing] result != nil ==> f.opts.EndIndex == old(f.opts.EndIndex) && f.sth == old(f.sth)
+//@ ensures [success-only-for-a-bigger-tree] result == nil ==> gs.res1 == nil && gs.res0.TreeSize > lastSize && f.sth == gs.res0
+//@ ensures [end-index-becomes-the-new-tree-size] result == nil ==> f.sth != nil && uint64(f.opts.EndIndex) == f.sth.TreeSize && f.sth.TreeSize > lastSize && f.sth.TreeSize <= 4611686018427387904
+
+// One fetch worker: for every range it receives it asks the log for exactly the part of the range
+// not yet delivered, hands each reply to the callback as the batch that starts at the cursor, and
+// advances the cursor by the number of entries delivered; it leaves the range only when the cursor
+// has passed its end (or the context ended).
+//@ func (*Fetcher).runWorker
+//@ props C16
+//@ arith int
+//@ site recv#1 as rcv
+//@ site Retry#1 as rt
+//@ site fn#1 as deliver
+//@ stable-field f.client
+//@ private resp
+//@ requires f != nil && f.client != nil && ctx != nil && fn != nil
+//@ loop 2 invariant f != nil && f.client != nil
+//@ loop 2 invariant r.end == rcv.res.end
+//@ loop 2 invariant rcv.res.start >= 0 && rcv.res.start <= rcv.res.end + 1 && rcv.res.end < 4611686018427387904 ==> rcv.res.start <= r.start && r.start <= r.end + 1
+//@ at deliver assert [batch-starts-at-the-cursor-with-the-entries-just-fetched] deliver.arg0.Start == r.start && deliver.arg0.Entries == resp.Entries && rt.res == nil
+//@ at deliver assert [never-delivers-past-the-range] rcv.res.start >= 0 && rcv.res.start <= rcv.res.end + 1 && rcv.res.end < 4611686018427387904 ==> 1 <= len(resp.Entries) && r.start + len(resp.Entries) <= r.end + 1
+//@ loop 2 step-assert [cursor-advances-by-what-was-delivered-and-only-then] (deliver.called && rcv.res.start >= 0 && rcv.res.start <= rcv.res.end + 1 && rcv.res.end < 4611686018427387904 ==> r.start == before(deliver, r.start) + len(deliver.arg0.Entries)) && (!deliver.called ==> r.start == before(rt, r.start))
+
+// One attempt of a worker: it requests exactly [cursor, end of the range] and reports success only
+// with a reply in hand.
+//@ func (*Fetcher).runWorker$1
+//@ props C16
+//@ arith int
+//@ modifies nothing
+//@ frame-trusted assigns only the captured variable resp (havocked at the call of Retry)
+//@ site GetRawEntries#1 as ge
+//@ requires f != nil && f.client != nil && ctx != nil
+//@ ensures [success-means-a-reply-of-between-one-and-the-requested-number-of-entries] result == nil ==> resp != nil && 1 <= len(resp.Entries) && len(resp.Entries) <= r.end - r.start + 1
+//@ ensures [result-is-the-log-clients-verdict] result == ge.res1 && resp == ge.res0
+//@ at ge assert [asks-for-exactly-the-undelivered-part-of-the-range] ge.start == r.start && ge.end == r.end
